@@ -1,7 +1,7 @@
 SPECIFICATION Spec
 CONSTANTS
-  MaxNodes = 7
-  Keys = {0,1,2}
+  MaxNodes = 6
+  Keys = {0,1,2,3}
   MaxOps = 0
   HVariant = "ok"
   Grammar = "any"
